@@ -14,6 +14,7 @@ typedef struct {
     SuperMatrix L, U; int have_LU;
     GlobalLU_t Glu; mem_usage_t mu; SuperLUStat_t stat; int stat_live;
     void *work; long lwork;      /* caller workspace (NULL, 0 = library allocation) */
+    long lu_lwork;               /* storage mode the live factors were created with */
     vf_dense B, X; int nrhs;
     long info;
     int ilu;
